@@ -165,6 +165,8 @@ def _extras(scn, seed, role):
         scn["first_addr"] = sum(xr.randint(1, 5) << (3 * d) for d in range(lv))
     if role[0] in ("net", "mesh", "master") and xr.random() < 0.3:
         scn["relay"] = True           # multicast_relay switched on
+    # MCU personality of the node under test: cost of one SPI transaction and of one clock reading
+    scn["mcu"] = {"spi_overhead_us": xr.choice([5, 30, 30, 150, 400]), "clock_us": xr.choice([1, 5, 50, 300]), "spi_jitter_us": 0}
     if xr.random() < 0.35:
         # a neighbour whose radio acknowledges but whose application never runs (a child, for nodes below the master sometimes the
         # parent): transmissions toward it succeed on the link and nothing ever comes back
@@ -193,7 +195,7 @@ def run(scn):
         res.count("direct_evaluation:addresses", 65536)
         res.sample = {"kind": "valid_addr", "evaluated": 65536}
         return res
-    w = World(scn["seed"], max_events=1_500_000, max_time=120_000 * MS)
+    w = World(scn["seed"], max_events=1_500_000, max_time=120_000 * MS, main_knobs=scn.get("mcu"))
     try:
         _run(scn, w, res)
     except SimAbort:
@@ -210,12 +212,20 @@ def _run(scn, w, res):
     sim = w.sim
     cls, arg = scn["role"]
     ru = w.radio("U")
-    if scn.get("first_addr") is not None and cls in ("net", "router"):
-        uut = CLASSES[cls](*w.bus(ru), scn["first_addr"])
-        uut.node_address = arg
-        sim.count("readdressed")
-    else:
-        uut = CLASSES[cls](*w.bus(ru), arg)
+    try:
+        if scn.get("first_addr") is not None and cls in ("net", "router"):
+            uut = CLASSES[cls](*w.bus(ru), scn["first_addr"])
+            uut.node_address = arg
+            sim.count("readdressed")
+        else:
+            uut = CLASSES[cls](*w.bus(ru), arg)
+    except SimAbort:
+        raise
+    except Exception as e:
+        import traceback
+        res.add("no_raise", {"kind": "construction_raised", "exc": type(e).__name__, "role": cls},
+                "constructing / addressing %s(%o) raised %r on an MCU with %r\n%s" % (cls, arg, e, scn.get("mcu"), traceback.format_exc()[-600:]))
+        return
     if scn.get("relay") and hasattr(uut, "multicast_relay"):
         uut.multicast_relay = True
     if scn.get("listener") is not None:
@@ -227,6 +237,7 @@ def _run(scn, w, res):
     arc = ru.r[4] & 0xF
     ard = ((ru.r[4] >> 4) + 1) * 250 * US
     per_frame = 2 * (130 * US + (1 + arc) * (ard + 500 * US) + uut.tx_timeout * MS * 1.05) + 12 * MS
+    per_frame += 400 * (sim.main.mcu.spi_overhead + sim.main.mcu.clock_ns)      # the node's own bus / clock costs (a few hundred transactions per frame)
     if scn.get("listener") is not None:
         per_frame += uut.route_timeout * MS * 1.05      # a routed reply accepted by the neighbour is followed by a wait for its NETWORK_ACK
     got_any = 0
@@ -273,6 +284,14 @@ def _run(scn, w, res):
         # ---- whatever the node transmits in reaction to these frames stems from them (forwarded frame, NETWORK_ACK, poll or
         # mesh reply all keep the frame id): nothing left over from an earlier update() goes out
         ids = {(d[4] | (d[5] << 8)) for (_, d) in pend if len(d) >= 8}
+        byid = {(d[0] | (d[1] << 8), d[4] | (d[5] << 8), d[6]): d for (_, d) in pend if len(d) >= 8}
+        for t in sent:
+            # a frame passed on keeps origin, id and type - and every byte of its body (nothing of an earlier frame is appended)
+            k_ = (t["data"][0] | (t["data"][1] << 8), t["data"][4] | (t["data"][5] << 8), t["data"][6]) if len(t["data"]) >= 8 else None
+            if k_ in byid and (t["data"][2] | (t["data"][3] << 8)) == (byid[k_][2] | (byid[k_][3] << 8)) and bytes(t["data"]) != bytes(byid[k_]):
+                res.add("dropped", {"kind": "forwarded_frame_altered", "role": cls},
+                        "%s(%o) received %s and passed on %s" % (cls, addr, bytes(byid[k_]).hex(), bytes(t["data"]).hex()))
+                break
         for t in sent:
             if len(t["data"]) >= 8 and (t["data"][4] | (t["data"][5] << 8)) not in ids:
                 res.add("dropped", {"kind": "stale_frame_transmitted", "role": cls},
